@@ -30,12 +30,12 @@ type ConcOp struct {
 // C07ConcCase: a prepared wallet state and K workers issuing Fund/Release
 // calls against it at the same time.
 type C07ConcCase struct {
-	Config       C07Config   `json:"config"`
-	WalletBlocks int         `json:"wallet_blocks"`
-	Pays         [][]int     `json:"pays"`
-	PoolSpend    bool        `json:"pool_spend"`   // one confirmed output is spent in the pool beforehand
-	PoolPayment  []int       `json:"pool_payment"` // an unconfirmed payment is pooled beforehand
-	Workers      [][]ConcOp  `json:"workers"`
+	Config       C07Config  `json:"config"`
+	WalletBlocks int        `json:"wallet_blocks"`
+	Pays         [][]int    `json:"pays"`
+	PoolSpend    bool       `json:"pool_spend"`   // one confirmed output is spent in the pool beforehand
+	PoolPayment  []int      `json:"pool_payment"` // an unconfirmed payment is pooled beforehand
+	Workers      [][]ConcOp `json:"workers"`
 }
 
 func genC07Conc(t *rapid.T) C07ConcCase {
@@ -346,7 +346,7 @@ func runC07Conc(c C07ConcCase, cs *kit.CaseStats) error {
 				change = change.Add(o.Value)
 			}
 			if !sum.Equals(r.amount.Add(change)) {
-				return fmt.Errorf("%s: Σ inputs %v != amount + change %v", where, sum, change)
+				return fmt.Errorf("%s: Σ inputs %v != amount %v + change %v", where, sum, r.amount, change)
 			}
 		default:
 			seen := map[scID]bool{}
